@@ -243,6 +243,7 @@ static SigP build(CaseBuild &cb, const std::vector<std::string> &t) {
 		//   item = r<form> | w<form>:<V> | g:<V>      (V, K = index into aux)
 		//   form = d:W:K  x(aux[K], W)   | p:P:K  x.part(P, aux[K]) | q:P:K  x.parts(P)[aux[K]] | b:K  x[aux[K]]
 		//        | s:O:W  x(O, W)        | t:P:I  x.part(P, I)      | i:I  x[I] | m  x.msb() | l  x.lsb() | u:W  x.upper(W) | o:W  x.lower(W)
+		//        | a  abs(x) | M:K  x * aux[K] | L:K  x < aux[K]      (SInt only, read only)
 		auto items = split(t.at(1), ',');
 		const Sig &src = R(2);
 		std::vector<const Sig *> aux;
@@ -275,6 +276,15 @@ static SigP build(CaseBuild &cb, const std::vector<std::string> &t) {
 					else if (form == "l") bit(x.lsb(), 1);
 					else if (form == "u") vec(x.upper(BitWidth{std::stoull(f.at(1))}), 2);
 					else if (form == "o") vec(x.lower(BitWidth{std::stoull(f.at(1))}), 2);
+					else if (form == "a" || form == "M" || form == "L") {
+						// whole-object operators that use the cached sign alias of x: abs(x), x * aux[K], x < aux[K]   (SInt, read only)
+						if constexpr (std::is_same_v<T, SInt>) {
+							if (write) throw TypeErr{};
+							if (form == "a") parts.emplace_back(abs(x));
+							else if (form == "M") parts.emplace_back((UInt) SInt(x * auxT(f.at(1))));
+							else parts.emplace_back(zext(Bit(x < auxT(f.at(1)))));
+						} else throw TypeErr{};
+					}
 					else throw std::runtime_error("bad slice form " + item);
 				}
 				parts.emplace_back((UInt) x);
